@@ -2,7 +2,7 @@ from .core import BASE_TRUST
 
 META = {
     "category": "proof",
-    "text": "Lean 4 theorems: on comparable sort-key columns (numbers with exact float reading, datetimes, text, NULLs) the row comparison handed to sort.Sort equals the lexicographic order of per-column keys in a strict total order, hence is a strict weak order (irreflexive, transitive, ties transitive), with ASC/DESC and NULLS FIRST/LAST; OFFSET = drop max(n,0); LIMIT = take; WITH TIES = take k ++ takeWhile (equivalent to the last kept row); LIMIT is always a prefix; NaN percentage refused. Model tied to /repo by differential correspondence through SQL: the implementation's ORDER BY output is checked sorted by the model's comparison (ties free), and OFFSET/LIMIT/PERCENT/WITH TIES results are compared exactly against the model applied to that order",
+    "text": "Lean 4 theorems: on comparable sort-key columns (numbers with exact float reading, datetimes, text, NULLs) the row comparison handed to sort.Sort equals the lexicographic order of per-column keys in a strict total order, hence is a strict weak order (irreflexive, transitive, ties transitive), with ASC/DESC and NULLS FIRST/LAST; OFFSET = drop max(n,0); LIMIT = take; WITH TIES = take k ++ takeWhile (equivalent to the last kept row); LIMIT is always a prefix; NaN percentage refused; the reference sort orderBy is a sorted permutation, EVERY sorted permutation carries the reference's key sequence (sorted_perm_keys_unique), EquivalentTo is equality of keys (equivalent_iff_keys_equal) and OFFSET / LIMIT / WITH TIES cut the same keys out of every sorted permutation (cut_keys_unique). Model tied to /repo by differential correspondence through SQL: the implementation's ORDER BY output is checked sorted by the model's comparison (ties free), and OFFSET/LIMIT/PERCENT/WITH TIES results are compared exactly against the model applied to that order; the query in front of ORDER BY varies (DISTINCT, analytic functions with their own ORDER BY / PARTITION BY, GROUP BY, derived table, WHERE), cut positions range over the whole table, and LIMIT p PERCENT is compared on a dense (row count, percentage) grid",
     "design_ref": "DESIGN.md section 5, C07",
     "note": "trusted: Lean kernel; harness + driver; sort.Sort's contract (sorted permutation for a strict weak order) is assumed, the permutation part is checked directly on every output; coercion profiles; the PERCENT count uses the model's float arithmetic (validated by C06's arith stream)",
     "technique": "Lean 4 machine-checked proof (order isomorphism to a lexicographic key order; list lemmas for the cuts) + differential correspondence with the Go implementation",
